@@ -6,7 +6,9 @@
 #  3. ./vcheck <ID> quick (and extra ids) against the patched worktree via VERIF_REPO
 # Writes /verif/seeded/<ID>-<variant>/{patch.diff,demo_test.go,meta.json,result.json}
 ID=$1; V=$2; shift 2; EXTRA="$@"
-SRC=/tmp/seed-$ID-out/$V
+R=${SEEDROUND:-}
+SRC=/tmp/seed$R-$ID-out/$V
+DST=$DST$R
 [ -f $SRC/patch.diff ] || { echo "no $SRC/patch.diff"; exit 3; }
 export GOFLAGS=-mod=mod GOPROXY=off
 WT=/tmp/wt-seedrun-$ID-$V-$$
@@ -34,11 +36,11 @@ for c in $ID $EXTRA; do
   VERIF_REPO=$WT ./vcheck $c quick | grep -E "quick:|VIOLATION|INCONCL" | head -4
   res[$c]=${PIPESTATUS[0]}
 done
-mkdir -p /verif/seeded/$ID-$V
-cp $SRC/patch.diff $SRC/demo_test.go $SRC/meta.json /verif/seeded/$ID-$V/ 2>/dev/null
+mkdir -p $DST
+cp $SRC/patch.diff $SRC/demo_test.go $SRC/meta.json $DST/ 2>/dev/null
 {
- echo "{\"id\": \"$ID-$V\", \"demo_without_patch_rc\": $without, \"demo_with_patch_rc\": $with, \"package_tests_rc\": $pk, \"checks\": {"
+ echo "{\"id\": \"$ID-$V$R\", \"demo_without_patch_rc\": $without, \"demo_with_patch_rc\": $with, \"package_tests_rc\": $pk, \"checks\": {"
  first=1; for c in $ID $EXTRA; do [ $first = 1 ] || echo ","; first=0; echo -n "  \"$c\": ${res[$c]}"; done
  echo "}}"
-} > /verif/seeded/$ID-$V/result.json
-cat /verif/seeded/$ID-$V/result.json
+} > $DST/result.json
+cat $DST/result.json
